@@ -298,6 +298,8 @@ def content_fault(data: bytes, spec) -> bytes:
         lines = data.split(b"\n")
         at = int(spec["at"]) % max(1, len(lines))
         return b"\n".join(lines[:at] + [b""] + lines[at:])
+    if kind == "replace":
+        return data.replace(spec["old"].encode(), spec["new"].encode(), 1)
     if kind == "field":
         # overwrite fixed columns of the n-th coordinate record (a garbled numeric field)
         lines = data.split(b"\n")
